@@ -6,6 +6,16 @@ import json, os, time
 import vlib
 from vlib import Infra, Violation, log
 
+TRUST = ("Trusted: TLC evaluator, Json/IOUtils community modules, harness projection functions "
+         "(shared by both binding directions), go -overlay.")
+MANIFEST = {
+        "engine": "tlc+go-harness", "design_ref": "DESIGN.md section 4 (C17), Appendix A",
+        "technique": "TLA+ spec Epochs.tla; TLC exhaustive MC; TLC-generated behaviours replayed on the real keeper; recorded schedules trace-validated by TLC",
+        "text": "Epochs.tla models BeginBlocker as StartBlock/Call/EndBlock/Abort. TLC checks grid, once-per-block, tick-exactly-when-due, signal order and containment exhaustively on a bounded model (8.6e5 states quick); one behaviour per distinct idle state of a second bounded model (2.3e4 quick, 1e5 thorough) is executed on the real x/epochs keeper with scripted subscribers and compared after every block; random block-time/fault schedules recorded from the real keeper (timers 1-4, units ns..h, ok/err/panic/out-of-gas with partial writes) are validated line by line by TLC with every property as invariant.",
+        "note": TRUST + " Subscribers are scripted EpochHooks; block atomicity emulated like baseapp (cache context + recover).",
+    }
+BUILD = [("./lite/epochs/", "epochs")]
+
 MC_CFG = """SPECIFICATION MCSpec
 CONSTANTS
   CConf <- %(conf)s
